@@ -1004,6 +1004,24 @@ MOTIFS_EXT = [
      ["new_cells", "C", "f", F(4, 1, "g", "r", "X")], ["new_cells", "C", "h", F(1, 2, "f")],
      ["new_space", "-", "B", []], ["set_ref", "B", "t", ["obj", "C.X.g"], "absolute"],
      ["new_cells", "B", "k", F(9, 1, "k", "t")]],
+    # a cells holding INPUTS (two argument keys) that is read from OTHER spaces by attribute paths going through
+    # its name: from a child space (`_space.parent.f(x)`), and from an unrelated space through a reference to the
+    # space (`X.f(x)`), with a chain above that caller; one caller in the cells' own space.  Nothing but the
+    # edges that leave the input elements ties the readers elsewhere to the cells
+    [["new_space", "-", "A", []], ["new_cells", "A", "f", F(0, 1)], ["set_value", "A", "f", 1, 25],
+     ["set_value", "A", "f", 0, 24], ["new_cells", "A", "g", F(1, 1, "f")],
+     ["new_space", "A", "X", []], ["new_cells", "A.X", "h", F(15, 2, "f")],
+     ["new_space", "-", "B", []], ["set_ref", "B", "X", ["obj", "A"], "absolute"],
+     ["new_cells", "B", "k", F(4, 1, "f", "r", "X")], ["new_cells", "B", "h", F(1, 2, "k")]],
+    # ONE cells (g, reading a reference of its space by name) SHARED by several callers: f in its own space,
+    # which also reads a reference of a child by attribute path (the only reader of it); h in its own space;
+    # k in another space, through an object-valued reference.  Each caller can be invalidated on its own
+    # (cleared, or - f - through the child's reference) while the others keep what they computed through g
+    [["new_space", "-", "C", []], ["set_ref", "C", "s", 2], ["new_space", "C", "X", []], ["set_ref", "C.X", "t", 7],
+     ["new_cells", "C", "g", F(2, 1, "g", "s")], ["new_cells", "C", "f", F(11, 1, "g", "t", "X")],
+     ["new_cells", "C", "h", F(1, 1, "g")],
+     ["new_space", "-", "B", []], ["set_ref", "B", "t", ["obj", "C.g"], "absolute"],
+     ["new_cells", "B", "k", F(9, 1, "k", "t")]],
 ]
 
 
@@ -1161,7 +1179,8 @@ def ref_edits_existing(live, edits):
 QUICK_FIRST = ("set_value", "clear", "clear_at", "set_cached", "set_formula")
 
 
-def ext_sequences(live, edits, rng, exhaustive, thorough=False, cap_pairs=24, cap_triples=6, cap_triples_ext=16):
+def ext_sequences(live, edits, rng, exhaustive, thorough=False, cap_pairs=14, cap_triples=6, cap_triples_ext=10,
+                  cap_pairs_ext=36):
     """the extended scenario families (each sequence is run after the motif program with everything
     evaluated, and followed by evaluating everything):
       * (clearing edit of one cells, edit of an existing reference): a reader of the reference is cleared,
@@ -1169,8 +1188,8 @@ def ext_sequences(live, edits, rng, exhaustive, thorough=False, cap_pairs=24, ca
         and a value assigned in the first step must survive unless it is the reference's own reader;
       * (reference edit, value assignment, edit of ANOTHER reference): an assigned value must not be
         discarded through edges its element had before it was cleared;
-    thorough tier: everything; quick tier: for the extended motifs every pair whose first edit is of the kinds
-    QUICK_FIRST and a seeded sample of the triples, for the base motifs a seeded sample of both"""
+    thorough tier: everything; quick tier: for the extended motifs a seeded sample of `cap_pairs_ext` pairs whose first
+    edit is of the kinds QUICK_FIRST and a seeded sample of the triples, for the base motifs a smaller sample of both"""
     refed = ref_edits_existing(live, edits)
     first = [e for e in edits if is_clearing(e)]
     pairs = [[a, b] for a in first for b in refed]
@@ -1180,7 +1199,10 @@ def ext_sequences(live, edits, rng, exhaustive, thorough=False, cap_pairs=24, ca
     if thorough:
         return pairs + triples
     if exhaustive:
+        # (every such pair until the families below were added; the pairs of one motif are highly redundant - each
+        # clearing kind x each reference edit - so a seeded sample of them pays for the new families)
         pairs = [p for p in pairs if p[0][0] in QUICK_FIRST]
+        pairs = rng.sample(pairs, min(len(pairs), cap_pairs_ext))
     else:
         pairs = rng.sample(pairs, min(len(pairs), cap_pairs))
     cap = cap_triples_ext if exhaustive else cap_triples
@@ -1188,7 +1210,7 @@ def ext_sequences(live, edits, rng, exhaustive, thorough=False, cap_pairs=24, ca
     return pairs + triples
 
 
-def input_sequences(live, edits, rng, thorough=False, cap=10):
+def input_sequences(live, edits, rng, thorough=False, cap=6):
     """the family "an INPUT, then the cells is redefined, evaluated again, then its namespace changes":
       [assign a value to one element of a cached cells;
        redefine that cells - a new formula (constant / reading a reference by name), a new name, the cache flag
@@ -1235,6 +1257,96 @@ def input_sequences(live, edits, rng, thorough=False, cap=10):
     return seqs
 
 
+def free_cells_name(s, avoid=()):
+    for n in W.CELLS:
+        if n not in s.cells and n not in avoid:
+            return n
+    return None
+
+
+def rename_sequences(live, edits, rng, exhaustive, thorough=False, cap=1):
+    """the family "a cells that holds an INPUT is renamed, and its old name is used again":
+      [assign a value to one element of a defined cached cells; evaluate everything (whatever reads the cells - by
+       name, through a reference to the cells or to its space, by an attribute path from a child or any other space -
+       now holds values computed from the input); rename the cells;
+       (nothing more | a NEW cells gets the old name, at once or after everything was evaluated again)]
+    followed, like every sequence, by evaluating everything.  A path that went through the old name resolves to
+    nothing, or to the new cells: nothing computed from the input under the old name may survive.
+    Quick tier: everything after the extended motifs (`exhaustive`), a seeded sample of `cap` cells after the others."""
+    seqs = []
+    n = 0
+    for path, s in W.all_spaces(live.m):
+        for cn, c in s.cells.items():
+            n += 1
+            if c._is_derived() or not c.is_cached:
+                continue
+            new = free_cells_name(s)
+            if new is None:
+                continue
+            assign = [["set_value", path, cn, 1, 60 + n], ["evalall"]]
+            ren = ["rename_cells", path, cn, new]
+            again = ["new_cells", path, cn, F(0, 9)]
+            seqs.append([assign + [ren], assign + [ren, again], assign + [ren, ["evalall"], again]])
+    if not (thorough or exhaustive):
+        seqs = rng.sample(seqs, min(len(seqs), cap))
+    return [x for grp in seqs for x in grp]
+
+
+def shared_callee_sequences(live, edits, uncache=False, with_names=False):
+    """the family "a cells SHARED by several callers; ONE caller is invalidated on its own; then an edit that must
+    reach the others through the shared cells".  Read off the dependency graph of the live model (every cells
+    cached, everything evaluated): U is shared when elements of at least two other cells were computed from elements
+    of U.  For each caller A of U:
+      first  = a way to discard what A holds and nothing else: `clear A`, `clear_at A 1`, or a change of a
+               reference that, of all the cells, only A reads by attribute path (reference graph);
+      second = an edit that must reach the values computed through U: a new formula of U (constant / reading a
+               reference), U deleted, U renamed, a change or deletion of a reference U's formula mentions and U's
+               space sees.
+    uncache: the sequence starts with `set_cached U 0; evalall` (for the properties whose histories carry the flags
+    themselves); otherwise the flags come from outside (C09's assignments).  with_names: [(name of U, sequence)]."""
+    import re
+    where = {}
+    for path, sp in W.all_spaces(live.m):
+        for cn, c in sp.cells.items():
+            where[id(c._impl)] = (path, cn, c, sp)
+    callers = collections.defaultdict(dict)
+    for a, b in live.m._impl.tracegraph.edges:
+        if a[0] is not b[0] and id(a[0]) in where and id(b[0]) in where:
+            callers[id(a[0])][id(b[0])] = True
+    readers = collections.defaultdict(set)      # (space path, reference name) -> cells that read it by attribute path
+    for r, node in live.m._impl.refgraph.edges:
+        try:
+            rp = W.rel(live.m, r.parent.interface) if hasattr(r.parent, "interface") and r.parent is not live.m._impl else None
+        except Exception:   # noqa
+            rp = None
+        if rp is not None and id(node[0]) in where:
+            readers[(rp, r.name)].add(id(node[0]))
+    seqs = []
+    for u, cs in callers.items():
+        if len(cs) < 2:
+            continue
+        pu, nu, cu, su = where[u]
+        if cu._is_derived():
+            continue
+        src = cu.formula.source if cu.formula is not None else ""
+        words = set(re.findall(r"[A-Za-z_]\w*", src or ""))
+        lin = [pu] + [W.rel(live.m, b) for b in su.bases]
+        new = free_cells_name(su)
+        seconds = [e for e in edits if e[0] == "set_formula" and e[1:3] == [pu, nu]]
+        seconds += [["del_cells", pu, nu]] + ([["rename_cells", pu, nu, new]] if new else [])
+        seconds += [e for e in edits if (e[0] in ("set_ref", "del_ref") and e[1] in lin and e[2] in words)
+                    or (e[0] in ("set_mref", "del_mref") and e[1] in words)]
+        for a in cs:
+            pa, na, ca, _ = where[a]
+            firsts = [["clear", pa, na], ["clear_at", pa, na, 1]]
+            firsts += [e for e in edits if e[0] == "set_ref" and readers.get((e[1], e[2])) == {a}]
+            pre = [["set_cached", pu, nu, 0], ["evalall"]] if uncache else []
+            for f in firsts:
+                for sec in seconds:
+                    seqs.append((nu, pre + [f, sec]) if with_names else pre + [f, sec])
+    return seqs
+
+
 def enumerate_edits(ctx, out, prop, hooks_factory, cfg, stats, quick_per_motif=16, pairs_per_motif=6):
     """small-scope exhaustive part: after every motif program (everything evaluated), every
     applicable single edit (quick tier: a seeded sample), followed by evaluating everything
@@ -1272,7 +1384,14 @@ def enumerate_edits(ctx, out, prop, hooks_factory, cfg, stats, quick_per_motif=1
                     inseqs = input_sequences(live, edits, ctx.rng("enum-input", prop, mi),
                                              thorough=ctx.tier == "thorough")
                     stats["enumerated_input_sequences"] += len(inseqs)
-                    extseqs = extseqs + inseqs
+                    renseqs = rename_sequences(live, edits, ctx.rng("enum-rename", prop, mi), exhaustive=is_ext_motif,
+                                               thorough=ctx.tier == "thorough")
+                    stats["enumerated_rename_sequences"] += len(renseqs)
+                    shseqs = shared_callee_sequences(live, edits, uncache=True)
+                    if ctx.tier != "thorough":
+                        shseqs = ctx.rng("enum-shared", prop, mi).sample(shseqs, min(len(shseqs), cfg.get("shared_cap", 12)))
+                    stats["enumerated_shared_callee_sequences"] += len(shseqs)
+                    extseqs = extseqs + inseqs + renseqs + shseqs
                 refed = ref_edits_existing(live, edits) if is_ext_motif else []
         finally:
             live.close()
@@ -1305,10 +1424,12 @@ def enumerate_edits(ctx, out, prop, hooks_factory, cfg, stats, quick_per_motif=1
         second = [e for e in edits if e[0] in ("set_ref", "del_ref", "set_mref", "remove_bases", "add_bases", "new_space")]
         if first and second and not light:
             allpairs = [[a, b] for a in first for b in second]
-            for pr in (allpairs if ctx.tier == "thorough" else rng.sample(allpairs, min(len(allpairs), 10))):
+            # (the extended families hold the (clearing edit, reference edit) pairs already: a smaller sample here)
+            for pr in (allpairs if ctx.tier == "thorough" else rng.sample(allpairs, min(len(allpairs), 4 if ext else 10))):
                 seqs.append(pr)
-        # a base edit followed by an unrelated structural edit (orders must survive graph copies)
-        for e in [e for e in edits if e[0] == "add_bases" and len(e[2]) == 2][:(99 if ctx.tier == "thorough" else 4 if not light else 0)]:
+        # a base edit followed by an unrelated structural edit (orders must survive graph copies) - a matter of the
+        # structural properties, not run in the quick tier of the value properties (`ext`)
+        for e in [e for e in edits if e[0] == "add_bases" and len(e[2]) == 2][:(99 if ctx.tier == "thorough" else 4 if not (light or ext) else 0)]:
             seqs.append([e, ["new_space", "-", "D" if not any(p == "D" for p in [x[2] for x in m if x[0] == "new_space"]) else "B", []]])
         seqs += extseqs
         stats["enumerated_ext_sequences"] += len(extseqs)
